@@ -42,6 +42,11 @@ func (rst *RstStream) Deserialize(fr *FrameHeader) error {
 		return ErrMissingBytes
 	}
 
+	if len(fr.payload) > 4 {
+		// https://httpwg.org/specs/rfc7540.html#rfc.section.6.4
+		return NewGoAwayError(FrameSizeError, "RST_STREAM frame payload is not 4 octets")
+	}
+
 	rst.code = ErrorCode(http2utils.BytesToUint32(fr.payload))
 
 	return nil
